@@ -32,4 +32,6 @@ pub mod c17;
 #[cfg(kani)]
 pub mod c18;
 #[cfg(kani)]
+pub mod c02;
+#[cfg(kani)]
 mod setup;
